@@ -9,8 +9,12 @@ PKG = "discovery"
 HARNESS = ["discovery/zz_verif_c16_test.go"]
 
 REQUIRED = [
-    "listed_sound", "one_live_per_subject", "timestamps_strict", "retraction_needs_owner",
-    "fact_get_reads_timestamp_first", "fact_check_order", "fact_add_deletes_previous",
+    "listed_sound", "verify_iff_acceptable", "one_live_per_subject", "timestamps_strict", "retraction_needs_owner",
+    "get_no_gap", "replica_rows_accounted", "get_mirrored_order_unsafe", "poll_idempotent_on_duplicates",
+    "replica_converges_partial", "replica_converges_same_seed", "replica_converges_full_false", "id_reuse_diverges",
+    "reset_restarts", "seed_change_partial_response_unsafe", "search_sound",
+    "fact_get_reads_timestamp_first", "fact_check_order", "fact_add_deletes_previous", "fact_expiry_comparisons",
+    "fact_update_service_shape", "fact_restart_after_wipe",
 ]
 
 
